@@ -1,5 +1,6 @@
 """C19 — the C mocking interface forwards to the C++ one: slot wiring (TABLE), forwarder typing (SIBLING),
 tagged-union conversion (TABLE), adaptors. DESIGN.md section 4, C19."""
+import itertools
 import re
 from .common import *
 from cpv.ceval import Evaluator, Unknown
@@ -346,17 +347,20 @@ def check(ctx, run):
     run.analysed(f)
     pn = [p["name"] for p in f.params]
     okc, wit = True, []
-    for answer in (0, 1, 2, -1):
+    # (also for one object on both sides and for two NULLs: whether a value equals itself is the C function's decision, as it is the
+    # comparator object's in the C++ interface)
+    for (o1, o2), answer in itertools.product(((11, 22), (11, 11), (0, 0)), (0, 1, 2, -1)):
         seen = []
-        ev = Evaluator(prog, f, env={pn[0]: 11, pn[1]: 22}, calls={"MockCFunctionComparatorNode::equal_": lambda *a_, answer=answer: (seen.append(a_), answer)[1]})
+        ev = Evaluator(prog, f, env={pn[0]: o1, pn[1]: o2}, calls={"MockCFunctionComparatorNode::equal_": lambda *a_, answer=answer: (seen.append(a_), answer)[1]})
         try:
             ev.run_blocks(f.entry, max_steps=100)
             r = getattr(ev, "ret", None)
+            r = int(bool(r)) if isinstance(r, (int, bool)) else r
         except Unknown as u:
             r = "unknown: %s" % u
-        wit.append({"C function answers": answer, "called with": [list(x) for x in seen], "isEqual": r})
-        okc = okc and seen == [(11, 22)] and r == (1 if answer != 0 else 0)
-    run.ob("R4", "C comparator folded: forwards (object1, object2) in order and converts the int answer with != 0", f.site, okc, witness=wit)
+        wit.append({"objects": (o1, o2), "C function answers": answer, "called with": [list(x) for x in seen], "isEqual": r})
+        okc = okc and seen == [(o1, o2)] and r == (1 if answer != 0 else 0)
+    run.ob("R4", "C comparator folded: forwards (object1, object2) in order - also the same object twice - and converts the int answer with != 0", f.site, okc, witness=[w_ for w_ in wit if w_["called with"] != [list(w_["objects"])] or w_["isEqual"] != (1 if w_["C function answers"] else 0)][:3] or "12 cases")
     f = prog.fn("MockCFunctionCopierNode::copy")
     run.analysed(f)
     pn = [p["name"] for p in f.params]
